@@ -12,6 +12,9 @@ UTC = dt.timezone.utc
 ASSET_POOL = ["BTC", "ETH", "DOGE", "USDC", "LUNA2", "1INCH", "xrp", "DOT", "B_1", "Sol"]
 EXCHANGE_POOL = ["Coinbase", "Coinbase Pro", "BlockFi", "Kraken", "Ledger-Nano", "binance.us", "Trezor One"]
 HOLDER_POOL = ["Alice", "Bob", "Chärlie", "D. Trader"]
+# names that differ only in case, or whose "<exchange>_<holder>" concatenations coincide: distinct accounts with colliding derived keys
+CONFUSABLE_EXCHANGES = ["Kraken", "kraken", "KRAKEN", "Ledger_Bob", "Ledger", "Coin base", "Coin_base"]
+CONFUSABLE_HOLDERS = ["Alice", "alice", "Bob_Alice", "ALICE", "Bob"]
 
 EARN_TYPES = ["AIRDROP", "HARDFORK", "INCOME", "INTEREST", "MINING", "STAKING", "WAGES"]
 IN_TYPES = ["BUY", "GIFT", "DONATE"] + EARN_TYPES
@@ -179,6 +182,13 @@ def gen_asset_rows(rng, asset, exchanges, holders, flags, start_year):
             # distinct instants inside one second / one minute (code that truncates timestamps to a coarser resolution)
             gap = dt.timedelta(microseconds=rng.randint(1, 400000)) if rng.random() < 0.7 else dt.timedelta(seconds=rng.randint(1, 50))
         t2 = t + gap
+        pool = flags.get("instant_pool")
+        if pool and rng.random() < 0.4:
+            later = [x for x in pool if x > t]
+            if later:
+                t2 = rng.choice(later[:6])
+                t = t2
+                return t
         if flags.get("boundaries", True) and rng.random() < 0.12:
             # land within +/-14 h of a New Year (UTC): the local year/date of the event then depends on the offset it is written with
             edge = dt.datetime(t2.year + rng.choice([0, 1]), 1, 1, tzinfo=UTC) + dt.timedelta(seconds=rng.randint(-14 * 3600, 14 * 3600))
@@ -361,10 +371,15 @@ def gen_world(rng, flags=None, country="us"):
     flags = dict(flags or {})
     n_assets = flags.get("n_assets") or rng.choice([1, 1, 2, 2, 3, 4])
     assets = rng.sample(ASSET_POOL, n_assets)
-    exchanges = rng.sample(EXCHANGE_POOL, flags.get("n_exchanges") or rng.choice([1, 2, 2, 3, 4]))
-    holders = rng.sample(HOLDER_POOL, flags.get("n_holders") or rng.choice([1, 1, 1, 2, 3]))
+    if flags.get("confusable"):
+        exchanges = rng.sample(CONFUSABLE_EXCHANGES, flags.get("n_exchanges") or rng.choice([2, 3, 4]))
+        holders = rng.sample(CONFUSABLE_HOLDERS, flags.get("n_holders") or rng.choice([1, 2, 3]))
+    else:
+        exchanges = rng.sample(EXCHANGE_POOL, flags.get("n_exchanges") or rng.choice([1, 2, 2, 3, 4]))
+        holders = rng.sample(HOLDER_POOL, flags.get("n_holders") or rng.choice([1, 1, 1, 2, 3]))
     headers, ncols = gen_headers(rng, flags)
     sheets = []
+    instant_pool = []
     for asset in assets:
         aflags = dict(flags)
         k = rng.random()
@@ -378,7 +393,12 @@ def gen_world(rng, flags=None, country="us"):
             if rng.random() < 0.2:
                 aflags["sparse_years"] = True
         start_year = rng.randint(2015, 2023)
+        if flags.get("shared_instants") and instant_pool:
+            # crypto-to-crypto trades: the two legs are rows of two assets at one instant (usually exported with different offsets)
+            aflags["instant_pool"] = sorted(instant_pool)
+            start_year = min(start_year, instant_pool[0].year)
         seq = gen_asset_rows(rng, asset, exchanges, holders, aflags, start_year)
+        instant_pool.extend(parse_ts(r["timestamp"]).astimezone(UTC) for _, r in seq)
         tables = {"IN": [], "OUT": [], "INTRA": []}
         for table, row in seq:
             tables[table].append(row)
